@@ -26,7 +26,8 @@ VERIF_MAIN
     size_t  padded = 99999, want, i, un = 777;
     int     r;
 
-    ASSUME(in.unpadded <= NMAX && in.max_buflen <= BUF && in.unpadded <= in.max_buflen);
+    /* the stated capacity may be smaller than the data already in the buffer: the call must then fail without writing */
+    ASSUME(in.unpadded <= NMAX && in.max_buflen <= BUF);
     memcpy(w, in.buf, BUF);
     want = (in.unpadded / BS + 1) * (size_t) BS;
     verif_misuse_expected = 0;
